@@ -103,7 +103,7 @@ def h_gradient(ctx, n):
     ctx.eq('objective = total Gibbs energy of the ideal mixture', eq._objective(np_array(ctx, x), list(g), p), want)
 
 
-def h_solve(ctx, net, success, ncalls):
+def h_solve(ctx, net, success, ncalls, status=9):
     """arguments handed to the minimiser, result assembly, and signalling of non-convergence"""
     import pmutt.equilibrium._equilibrium as mod
     import warnings
@@ -121,7 +121,7 @@ def h_solve(ctx, net, success, ncalls):
         sol.x = np_array(ctx, [ctx.real('sol%d_x_%s' % (k, s.name), 1e-20, 1e3) for s in sps])
         sol.success = success
         sol.message = 'stub'
-        sol.status = 0 if success else 9
+        sol.status = 0 if success else status        # SLSQP exit modes 1-9 are all failures
         return sol
     mod.minimize = minimize
     try:
@@ -180,5 +180,7 @@ def groups(tier):
         g.append(dict(name='gradient/%d species' % n, harness=h_gradient, params=dict(n=n), timeout_ms=120000))
     for net in ('H2-O2-H2O', 'late-elements'):
         g.append(dict(name='solve/%s/success/2 calls' % net, harness=h_solve, params=dict(net=net, success=True, ncalls=2), no_validate=True))
-        g.append(dict(name='solve/%s/not-converged' % net, harness=h_solve, params=dict(net=net, success=False, ncalls=1), no_validate=True))
+        for status in ((1, 2, 3, 4, 5, 6, 7, 8, 9) if net == 'H2-O2-H2O' else (9,)):
+            g.append(dict(name='solve/%s/not-converged/SLSQP-exit-mode-%d' % (net, status), harness=h_solve,
+                          params=dict(net=net, success=False, ncalls=1, status=status), no_validate=True))
     return g
